@@ -131,7 +131,7 @@ def run(F, R, tier, cfg):
         fld = [f for f in adt["variants"][0][2] if f[0] == "manager"]
         ok = bool(fld) and "MultiPathManagerRef" in fld[0][1]
         ref = F.adts.get("scion_stack::path::manager::MultiPathManagerRef")
-        ok = ok and ref is not None and "std::sync::Weak<" in ref["variants"][0][2][0][1]
+        ok = ok and ref is not None and "alloc::sync::Weak<" in ref["variants"][0][2][0][1]
         R.ob("WMC-weak", "PathSet.manager is a Weak reference (type fact)", ok, True)
         if not ok:
             R.violation("WMC-weak", "PathSet.manager/type", "the worker holds a strong manager reference: dropping the manager no longer stops it", None)
@@ -160,7 +160,7 @@ def run(F, R, tier, cfg):
         if not ok:
             R.violation("WMC-manage", p + "/spawn", "path manager spawns a task outside PathSet::manage", c.span.loc)
     R.floor("WMC-spawn", len(spawns), 1, "tokio::spawn sites in path::manager")
-    drop = [p for p, e in F.fns.items() if e.get("trait_item") == "std::ops::Drop::drop" and "PathSetTask" in (e.get("self_ty") or "")]
+    drop = [p for p, e in F.fns.items() if e.get("trait_item") == "core::ops::drop::Drop::drop" and "PathSetTask" in (e.get("self_ty") or "")]
     okd = False
     for p in drop:
         pb = F.body(p)
